@@ -13,6 +13,7 @@ import (
 	"github.com/spf13/viper"
 
 	abcitypes "github.com/cometbft/cometbft/abci/types"
+	sm "github.com/cometbft/cometbft/state"
 	cmttypes "github.com/cometbft/cometbft/types"
 
 	beacon "github.com/oasisprotocol/oasis-core/go/beacon/api"
@@ -87,6 +88,8 @@ type Op struct {
 	Replica int      `json:"replica,omitempty"`
 	// Crash arms a crash of one replica inside the next block (chain-level C07, see crash.go).
 	Crash *CrashOp `json:"crash,omitempty"`
+	// Sync makes a new node join by state sync (statesync.go).
+	Sync *SyncOp `json:"sync,omitempty"`
 }
 
 // PendingTx is a transaction in the simulated mempools.
@@ -152,6 +155,10 @@ type Sim struct {
 	histTrees []mkvs.Tree
 	// cc is the chain-level crash state (C07 chaincrash batch; nil-valued and inert otherwise).
 	cc chainCrash
+	// States are the CometBFT states after each height (what a light client would reconstruct
+	// for a node that joins by state sync); ss counts what the sync ops achieved.
+	States map[int64]sm.State
+	ss     syncState
 }
 
 // Ref returns a replica that is up and at the tip.
@@ -279,7 +286,7 @@ func (e Engine) Execute(sc *core.Scenario, st *core.Stats) (*core.Violation, boo
 	}
 	viper.Set("debug.dont_blame_oasis", true)
 	s := &Sim{Prop: e.Prop, K: k, St: st, Ctx: context.Background(), Blocks: map[int64]*cmttypes.Block{}, Commits: map[int64]*cmttypes.Commit{},
-		pendingNonce: map[signature.PublicKey]uint64{}, Results: map[int64]*BlockResult{}, callCount: map[int]int{}}
+		pendingNonce: map[signature.PublicKey]uint64{}, Results: map[int64]*BlockResult{}, callCount: map[int]int{}, States: map[int64]sm.State{}}
 	w, err := BuildWorld(k.Gen)
 	if err != nil {
 		core.Harnessf("chain: build world: %v", err)
@@ -359,6 +366,8 @@ func (e Engine) Execute(sc *core.Scenario, st *core.Stats) (*core.Violation, boo
 			v = s.restart(op.Replica%len(s.Reps), opIdx)
 		case "crash":
 			s.armCrashOp(op.Crash)
+		case "sync":
+			v = s.stateSync(op.Sync)
 		default:
 			core.Harnessf("chain: unknown op %q", op.K)
 		}
@@ -941,6 +950,11 @@ func (s *Sim) produceBlock(opIdx int, b *BlockOp) *core.Violation {
 		}
 		if refRes == nil {
 			refRes = res
+			st := r.State.Copy()
+			// (Copy shares the hash slices, which alias memory of the application.)
+			st.AppHash = append([]byte{}, st.AppHash...)
+			st.LastResultsHash = append([]byte{}, st.LastResultsHash...)
+			s.States[h] = st
 		}
 	}
 	s.Blocks[h], s.Commits[h] = blk, commit
